@@ -120,6 +120,76 @@ def run(run):
         key = bytes(rng.getrandbits(8) for _ in range(rng.choice(
             (0, 1, 94, 162, 294))))
         check(sid, secret, key, 'random')
+    # ---- the application's logging set-up ------------------------------------
+    # (a program may run with the root logger at DEBUG; what the library logs
+    # on the way must not change what it computes)
+    import logging
+    if run.shard == 0:
+        root = logging.getLogger()
+        old_level, old_handlers = root.level, list(root.handlers)
+        sink_handler = logging.NullHandler()
+        root.addHandler(sink_handler)
+        root.setLevel(logging.DEBUG)
+        old_disable = logging.root.manager.disable
+        logging.disable(logging.NOTSET)
+        try:
+            for k in range(300):
+                check(rng.choice(ids), bytes(rng.getrandbits(8) for _ in
+                                             range(16)),
+                      bytes(rng.getrandbits(8) for _ in range(rng.choice(
+                          (1, 94, 162)))), 'root logger at DEBUG')
+                run.count('hashes_with_debug_logging')
+        finally:
+            root.setLevel(old_level)
+            root.removeHandler(sink_handler)
+            logging.disable(old_disable)
+    # ---- several threads hashing at once --------------------------------------
+    # (two connections of one process may log in at the same moment; with a
+    # pre-emption injected between any two statements of the module)
+    if run.shard == 0:
+        import sys
+        import threading
+        from ..probes.linemon import LineMonitor
+        problems = []
+
+        def hasher(seed, n):
+            import random
+            r = random.Random(seed)
+            for _ in range(n):
+                sid = r.choice(ids)
+                secret = bytes(r.getrandbits(8) for _ in range(16))
+                key = bytes(r.getrandbits(8) for _ in range(r.choice(
+                    (1, 94, 162))))
+                exp = javahash.server_hash(sid, secret, key)
+                try:
+                    got = encryption.generate_verification_hash(sid, secret,
+                                                                key)
+                except Exception as e:
+                    got = repr(e)
+                if got != exp:
+                    problems.append({'server_id': sid, 'secret': secret,
+                                     'key': key, 'got': got, 'expected': exp})
+                    return
+        old_si = sys.getswitchinterval()
+        sys.setswitchinterval(1e-6)
+        try:
+            with LineMonitor(files=['minecraft/networking/encryption.py'],
+                             yield_prob=0.3, seed=run.seed) as mon:
+                n_t = 3000 if thorough else 600
+                ts = [threading.Thread(target=hasher, args=(run.seed + k, n_t))
+                      for k in range(4)]
+                for t in ts:
+                    t.start()
+                for t in ts:
+                    t.join(300.0)
+                run.count('concurrent_hashes', 4 * n_t)
+                run.count('concurrent_hash_yields', mon.yields)
+        finally:
+            sys.setswitchinterval(old_si)
+        if problems:
+            run.violation('hash/concurrent', 'a hash computed while other '
+                          'threads were computing hashes is wrong (shared '
+                          'state inside the function)', problems[0])
     # ---- keys as a server may encode them ------------------------------------
     # The hash is over the key bytes *as received*.  Real and well-formed keys
     # in the canonical SubjectPublicKeyInfo form, and loadable variants of the
@@ -164,4 +234,7 @@ def run(run):
                     'hash': javahash.server_hash(sid, secret, key)})
     run.require('digest_shapes', 6)
     run.require('calling_styles', 5)
+    if run.shard == 0:
+        run.require('hashes_with_debug_logging', 100)
+        run.require('concurrent_hashes', 1000)
     run.require('key_encodings_checked', 10)
